@@ -1,5 +1,5 @@
 (* C04 harness entry points (definitions only; evaluated by py/checks/C04.py). *)
-From PyRTL Require Import Netlist.Sem Netlist.WFDefs Netlist.SpecHarness Pass.Opt.
+From PyRTL Require Import Netlist.Sem Netlist.WFDefs Netlist.SpecHarness Pass.Opt Pass.OptCheck.
 
 Definition opt_pass (p : Z) : netlist -> netlist :=
   match p with
@@ -48,9 +48,15 @@ Definition dump_nl (nl : netlist) : list (list Z) * list (list Z) :=
 Definition opt_case (p reps : Z) (nl : netlist) (dflt : Z) (regmap : list (Z * Z))
     (memmap : list (Z * list (Z * Z))) (inss : list (list (Z * Z))) (outs : list Z)
   : (list (list Z) * list (list Z)) * list (list Z) :=
-  let nl' := iter_pass (Z.to_nat reps) (opt_pass p) nl in
+  let prev := iter_pass (Nat.pred (Z.to_nat reps)) (opt_pass p) nl in
+  let nl' := opt_pass p prev in
   let '(vs, st) := run nl' dflt (init_state nl' dflt regmap memmap) (map ins_of inss) in
-  (dump_nl nl', [b2z (wfb nl')] :: map (fun v => map v outs) vs).
+  (* row 0: result is wfb; the input of this application satisfies the API-built
+     assumption; the premise of remove_unlistened_preserves holds of it *)
+  (dump_nl nl',
+   [b2z (wfb nl'); b2z (api_built prev);
+    b2z (match p with 5 => unlistened_ok prev | _ => true end)]
+   :: map (fun v => map v outs) vs).
 
 (* first-pass folding decisions: [dest; kind; payload] per net of the dump
    (kind 0 keep, 1 const, 2 wire, 3 not) *)
